@@ -49,22 +49,32 @@ CONSTANTS
   Ticks,         \* durations by which the clock may advance between exchanges
   Horizon,       \* the clock is not advanced beyond this instant (model checking only)
   MaxEx,         \* bound on the number of requests built (model checking only)
-  ProbeNs        \* numbers of cookie/placeholder fields other clients may send
+  ProbeNs,       \* numbers of cookie/placeholder fields other clients may send
+  ProbeUids      \* lengths of the unique identifiers other clients may send (>= 32)
 
 (***************************************************************************)
 (* Wire sizes (net/nts/nts.go: extension fields are 4-byte aligned)        *)
 (***************************************************************************)
 Pad4(n)       == ((n + 3) \div 4) * 4
 NtpLen        == 48                          \* ntpPacketLen
-UidField      == 4 + Pad4(32)                \* UniqueIdentifier.pack, newID: 32 bytes
+OwnUid        == 32                          \* newID: this project's client sends 32 bytes
+UidFieldU(u)  == 4 + Pad4(u)                 \* UniqueIdentifier.pack; the server echoes the requester's
+UidField      == UidFieldU(OwnUid)
 CookieField   == 4 + Pad4(CookieLen)         \* Cookie.pack and CookiePlaceholder.pack
 AuthField(pt) == 4 + 2 + 2 + Pad4(16) + Pad4(pt + 16)  \* Authenticator.pack: 16-byte nonce, SIV tag 16
 FieldsEnd(n)  == NtpLen + UidField + n * CookieField    \* position of the authenticator of a request
 ReqSizeN(n)   == FieldsEnd(n) + AuthField(0)            \* request with n cookie/placeholder fields
 ReqSize(p)    == ReqSizeN(1 + (PoolMax - p))            \* request built at pool level p
-RespSize(m)   == NtpLen + UidField + AuthField(m * CookieField)  \* reply with m (encrypted) cookies
+\* reply with m (encrypted) cookies to a request whose unique identifier has u bytes
+RespSizeU(m, u) == NtpLen + UidFieldU(u) + AuthField(m * CookieField)
+RespSize(m)   == RespSizeU(m, OwnUid)
 \* the largest number of cookies whose reply is within MaxPacketLen
-MaxFit == IF MaxPacketLen < RespSize(0) THEN 0 ELSE (MaxPacketLen - RespSize(0)) \div CookieField
+MaxFitU(u) == IF MaxPacketLen < RespSizeU(0, u) THEN 0 ELSE (MaxPacketLen - RespSizeU(0, u)) \div CookieField
+MaxFit == MaxFitU(OwnUid)
+\* UniqueIdentifier.unpack (server side): identifiers shorter than 32 bytes or
+\* longer than MaxPacketLen/4 are refused, the request is dropped
+UidLimit == MaxPacketLen \div 4
+UidAccepted(u) == u >= 32 /\ u <= UidLimit
 Min2(a, b) == IF a <= b THEN a ELSE b
 
 \* EncodePacket works in a buffer of exactly MaxPacketLen bytes: field bodies
@@ -100,7 +110,7 @@ vars == <<now, prov, pool, sess, used, seen, phase, net, rep, pre, clean, nex, n
 \* behaviours that agree on the rest
 view == <<now, prov, [i \in DOMAIN pool |-> <<pool[i].key, pool[i].sess>>], sess, phase,
           IF net.k = "req" THEN <<net.cookie.key, net.cookie.sess, net.p, net.bad>> ELSE <<>>,
-          IF rep.k = "none" THEN <<>> ELSE <<rep.k, rep.n, Len(rep.cookies), rep.bad>>,
+          IF rep.k = "none" THEN <<>> ELSE <<rep.k, rep.n, rep.u, Len(rep.cookies), rep.bad>>,
           pre, clean, nex, obs>>
 
 \* without a bound on the number of exchanges (MaxEx large) the counters and
@@ -108,7 +118,7 @@ view == <<now, prov, [i \in DOMAIN pool |-> <<pool[i].key, pool[i].sess>>], sess
 \* because the clock stops at Horizon
 viewU == <<now, prov, [i \in DOMAIN pool |-> <<pool[i].key, pool[i].sess = sess>>], phase,
            IF net.k = "req" THEN <<net.cookie.key, net.cookie.sess = sess, net.p, net.bad>> ELSE <<>>,
-           IF rep.k = "none" THEN <<>> ELSE <<rep.k, rep.n, Len(rep.cookies), rep.bad>>,
+           IF rep.k = "none" THEN <<>> ELSE <<rep.k, rep.n, rep.u, Len(rep.cookies), rep.bad>>,
            pre, clean, sess > 0, obs>>
 
 NoMsg == [k |-> "none"]
@@ -138,13 +148,14 @@ NewCookies(k, s, m) == [i \in 1 .. m |-> [id |-> nextId + i - 1, key |-> k, sess
 (***************************************************************************)
 \* n = len(ntsreq.Cookies) + len(ntsreq.CookiePlaceholders) fields were sent;
 \* the reply is encoded with EncodePacket into a MaxPacketLen buffer: what does
-\* not fit is cut off (the authenticator's ciphertext is the last thing written)
-ReplyFor(kind, n, s, pv) ==
-  LET m  == IF CapReply THEN Min2(n, MaxFit) ELSE n
+\* not fit is cut off (the authenticator's ciphertext is the last thing written).
+\* The requester's unique identifier (u bytes) is echoed and takes its share.
+ReplyFor(kind, n, s, pv, u) ==
+  LET m  == IF CapReply THEN Min2(n, MaxFitU(u)) ELSE n
       cs == NewCookies(pv.cur, s, m)
-  IN [k |-> kind, n |-> n, cookies |-> cs, sess |-> s,
-      size |-> Min2(RespSize(m), MaxPacketLen),
-      bad |-> RespSize(m) > MaxPacketLen]
+  IN [k |-> kind, n |-> n, u |-> u, cookies |-> cs, sess |-> s,
+      size |-> Min2(RespSizeU(m, u), MaxPacketLen),
+      bad |-> RespSizeU(m, u) > MaxPacketLen]
 
 (***************************************************************************)
 (* Actions                                                                 *)
@@ -177,7 +188,7 @@ Rekey ==
      IN /\ prov' = pv
         /\ sess' = sess + 1
         /\ pool' = cs
-        /\ rep' = [k |-> "ke", n |-> 8, cookies |-> cs, sess |-> sess + 1, size |-> 0, bad |-> FALSE]
+        /\ rep' = [k |-> "ke", n |-> 8, u |-> OwnUid, cookies |-> cs, sess |-> sess + 1, size |-> 0, bad |-> FALSE]
         /\ seen' = seen \cup Ids(cs)
         /\ nextId' = nextId + 8
   /\ obs' = "rekey"
@@ -218,7 +229,7 @@ ServerHandle ==
   /\ phase = "req"
   /\ IF ~net.bad /\ KeyValid(net.cookie.key)
      THEN LET pv == CurrentP(prov, now)
-              r  == ReplyFor("ntp", net.ncookie + net.nph, net.cookie.sess, pv)
+              r  == ReplyFor("ntp", net.ncookie + net.nph, net.cookie.sess, pv, OwnUid)
           IN /\ prov' = pv
              /\ rep' = r
              /\ seen' = seen \cup Ids(r.cookies)
@@ -256,15 +267,20 @@ Tick(d) ==
   /\ UNCHANGED <<prov, pool, sess, used, seen, phase, net, pre, clean, nex, nextId>>
 
 \* another client of the same server (session 0) sends an authenticated request
-\* with n cookie/placeholder fields and a cookie under the current key
-Probe(n) ==
+\* with n cookie/placeholder fields, a unique identifier of u bytes and a cookie
+\* under the current key
+Probe(n, u) ==
   /\ phase = "idle" /\ nex < MaxEx
-  /\ LET pv == CurrentP(prov, now)
-         r  == ReplyFor("probe", n, 0, pv)
+  /\ LET pv == CurrentP(prov, now)    \* (the requester got its cookie from Current())
+         r  == ReplyFor("probe", n, 0, pv, u)
      IN /\ prov' = pv
-        /\ rep' = r
-        /\ seen' = seen \cup Ids(r.cookies)
-        /\ nextId' = nextId + Len(r.cookies)
+        /\ IF UidAccepted(u)
+           THEN /\ rep' = r
+                /\ seen' = seen \cup Ids(r.cookies)
+                /\ nextId' = nextId + Len(r.cookies)
+           ELSE /\ rep' = [k |-> "dropped", n |-> n, u |-> u, cookies |-> << >>, sess |-> 0,
+                           size |-> 0, bad |-> FALSE]
+                /\ UNCHANGED <<seen, nextId>>
   /\ nex' = nex + 1
   /\ obs' = "probe"
   /\ UNCHANGED <<now, pool, sess, used, phase, net, pre, clean>>
@@ -273,7 +289,7 @@ Next ==
   \/ Rekey \/ SendRequest \/ LoseRequest \/ ServerHandle \/ LoseResponse
   \/ ClientReceive \/ Timeout
   \/ \E d \in Ticks : Tick(d)
-  \/ \E n \in ProbeNs : Probe(n)
+  \/ \E n \in ProbeNs, u \in ProbeUids : Probe(n, u)
 
 Spec == Init /\ [][Next]_vars
 
@@ -307,18 +323,22 @@ PoolCap  == Len(pool) <= PoolMax
 StaysFull == (clean /\ phase = "idle" /\ sess > 0) => Len(pool) = PoolMax
 
 \* the server's answer is well formed, within the maximum packet size and can
-\* be authenticated by the requester
+\* be authenticated by the requester (for every number of requested cookies and
+\* every length of the requester's unique identifier)
 IsReply == rep.k \in {"ntp", "probe"}
 RespFits == IsReply => (~rep.bad /\ rep.size <= MaxPacketLen)
 \* one fresh cookie per cookie or placeholder requested, as many as fit (the
 \* clients of this property never request more than PoolMax; for a request
 \* with more fields only "at least one, at most one per field" is required)
 RespCount == (IsReply /\ ~rep.bad) =>
-   IF rep.n <= PoolMax THEN Len(rep.cookies) = Min2(rep.n, MaxFit)
+   IF rep.n <= PoolMax THEN Len(rep.cookies) = Min2(rep.n, MaxFitU(rep.u))
    ELSE Len(rep.cookies) >= 1 /\ Len(rep.cookies) <= rep.n
 \* an authenticated request under a valid key is answered
 AnsweredStep == (obs' = "norep" /\ ~net.bad) => ~KeyValid(net.cookie.key)
 Answered == [][AnsweredStep]_vars
+\* ... whatever the length of its unique identifier, up to the bound the server
+\* states for the identifiers it is able to echo
+ProbeAnswered == rep.k = "dropped" => ~UidAccepted(rep.u)
 \* fresh: never issued before, pairwise different
 FreshStep == rep'.k # "none" =>
    /\ \A i \in DOMAIN rep'.cookies : rep'.cookies[i].id \notin seen
